@@ -557,6 +557,8 @@ class NetworkGraph(AbstractBaseIR):
                 # Build chain input: use source var directly when group covers all its elements
                 if src_indices == list(range(n_src_var)):
                     chain_in = var
+                elif n_src_var == 1:
+                    chain_in = var  # scalar source variable: every slot of the chain reads it (broadcast)
                 elif G == 1:
                     chain_in = f"index({var}, {src_indices[0]})"
                 else:
